@@ -597,6 +597,9 @@ class ConstEval:
             for ty, names in SAFE_METHODS.items():
                 if isinstance(base, ty) and e.attr in names:
                     return getattr(base, e.attr)
+            if (base is int and e.attr == "from_bytes") or (base in (bytes, bytearray) and e.attr == "fromhex") or (base is dict and e.attr == "fromkeys") or (base is str and e.attr == "join"):
+                # pure alternative constructors of the built-in types
+                return getattr(base, e.attr)
             raise NotConstant(f"attribute {e.attr} of {t.__name__}")
         if isinstance(e, ast.BinOp):
             return self.binop(e.op, self.eval(e.left, env, mod), self.eval(e.right, env, mod))
@@ -753,7 +756,8 @@ class ConstEval:
                 pass  # containers may hold opaque elements
             else:
                 raise NotConstant("call with opaque argument")
-        if f in SAFE_BUILTINS.values() or (getattr(f, "__module__", None) == "math" and getattr(f, "__name__", "") in SAFE_MATH) or (hasattr(f, "__self__") and not isinstance(f.__self__, type(_math)) and any(
+        if f in SAFE_BUILTINS.values() or (getattr(f, "__module__", None) == "math" and getattr(f, "__name__", "") in SAFE_MATH) or \
+                (getattr(f, "__self__", None) in (int, bytes, bytearray, dict) and getattr(f, "__name__", "") in ("from_bytes", "fromhex", "fromkeys")) or (hasattr(f, "__self__") and not isinstance(f.__self__, type(_math)) and any(
                 isinstance(f.__self__, ty) and f.__name__ in names for ty, names in SAFE_METHODS.items())):
             if f is range and args and any(isinstance(a, int) and abs(a) > 1_000_000 for a in args):
                 raise NotConstant("range too large")
